@@ -136,6 +136,7 @@ def shortest_path_to_vertex_set(mesh : PolyLine, start : int, targets : list, we
 
     if len(targets)==1 : 
         # nothing special to do in this case, just call shortest_path between two vertices
+        TARGET = targets[0]
         if export_path_mesh:
             parent, mesh = shortest_path(mesh, start, TARGET, weights, export_path_mesh)
             return TARGET, parent[TARGET], mesh
